@@ -10,7 +10,8 @@ EXTENDS MatchSem, Json, Randomization
 CONSTANTS
     Sel,        \* set of pool names to generate (see Pools)
     NRand,      \* random matrices per type and arm count
-    FullLemma   \* check RegionLemma over u8 = 0..255 (else only the cheap facts)
+    SliceK, SliceR,   \* keep the matrices whose first arm has index SliceR modulo SliceK (1, 0 = all)
+    FullLemma   \* also check RegionLemma over the full value space, u8 = 0..255 (types with <= 1 u8 leaf)
 
 S == INSTANCE SwaySem
 
@@ -29,7 +30,8 @@ Ec == [k |-> "enum", name |-> "Ec", ts |-> <<TUnit, Sa>>]
 
 Types == [ bool |-> TBool, u8 |-> TU8, Ea |-> Ea, Eb |-> Eb, Ec |-> Ec, Sa |-> Sa, Sb |-> Sb,
            bb |-> Tup(<<TBool, TBool>>), bu |-> Tup(<<TBool, TU8>>), eb |-> Tup(<<Ea, TBool>>),
-           bbb |-> Tup(<<TBool, TBool, TBool>>), uu |-> Tup(<<TU8, TU8>>), es |-> Tup(<<Ea, Sa>>) ]
+           bbb |-> Tup(<<TBool, TBool, TBool>>), uu |-> Tup(<<TU8, TU8>>), es |-> Tup(<<Ea, Sa>>),
+           tbb |-> Tup(<<Tup(<<TBool, TBool>>), TBool, TBool>>) ]
 
 FieldName(i) == <<"f", "g", "h">>[i]
 
@@ -168,11 +170,21 @@ Pool(s) ==
       [] s = "r_bbb"  -> Rnd("bbb", 4)
       [] s = "r_uu"   -> Rnd("uu", 4)
       [] s = "r_es"   -> Rnd("es", 3)
+      [] s = "r_tbb"  -> Rnd("tbb", 4)
 
 VARIABLE m
 vars == <<m>>
 
-Init == \E s \in Sel : m \in Pool(s)
+SE == INSTANCE SequencesExt
+
+\* a pool is generated in SliceK pieces (by the position of the first arm in TLC's fixed value order)
+Sliced(pool) ==
+    IF SliceK = 1 THEN pool
+    ELSE LET firsts == SE!SetToSeq({ x.M[1] : x \in pool })
+             Idx(p) == CHOOSE i \in DOMAIN firsts : firsts[i] = p
+         IN { x \in pool : Idx(x.M[1]) % SliceK = SliceR }
+
+Init == \E s \in Sel : m \in Sliced(Pool(s))
 Next == FALSE /\ UNCHANGED m
 Spec == Init /\ [][Next]_vars
 
@@ -226,13 +238,11 @@ U8Leaves(t) ==
             IF n = 0 THEN 0 ELSE Max({ U8Leaves(t.ts[i]) : i \in 1..n })
       [] t.k = "tuple" \/ t.k = "struct" -> SumSeq([i \in DOMAIN t.ts |-> U8Leaves(t.ts[i])], 1)
       [] OTHER -> 0
-Lemma == (FullLemma /\ U8Leaves(T) <= 1) => RegionLemma(m.M, T)
+Lemma == AtomRegionLemma(m.M) /\ ((FullLemma /\ U8Leaves(T) <= 1) => RegionLemma(m.M, T))
 
 (***************************************************************************)
 (* Replay records: the matrix, its abstract value space and the verdicts   *)
 (***************************************************************************)
-SE == INSTANCE SequencesExt
-
 Record ==
     LET M == m.M
         tb == Table(M, T)
